@@ -480,6 +480,15 @@ pub fn enabled(w: &World, pre: &PuObs, alpha: Alpha) -> Vec<PuOp> {
         let h1 = [("uom", "uusd", "o.cp"), ("uusd", "uusdc", "o.ss")];
         let h2 = [("uusdc", "uusd", "o.ss"), ("uusd", "uom", "o.cp")];
         ops.push(route(B, &h1, 50_000, None, None));
+        if full || swapfocus {
+            // dust: amounts worth less than one unit of an intermediate asset
+            ops.push(route(B, &h1, 1, None, None));
+            ops.push(route(B, &h2, 2, None, None));
+            if has("o.cp2") {
+                // first hop worth less than one unit of its ask asset (returns nothing), a stableswap hop last
+                ops.push(route(B, &[("uusd", "uom", "o.cp"), ("uom", "uusdc", "o.cp2"), ("uusdc", "uusd", "o.ss")], 1, None, None));
+            }
+        }
         // minimum_receive on the boundary, from the route simulation on this state
         if let Ok(s) = w.query::<pm::SimulateSwapOperationsResponse, _>(&w.pool_manager, &pm::QueryMsg::SimulateSwapOperations { offer_amount: Uint128::new(70_001), operations: ops_of(&h2.iter().map(|(a, b, c)| (a.to_string(), b.to_string(), c.to_string())).collect::<Vec<_>>()) }) {
             ops.push(route(B, &h2, 70_001, Some(s.return_amount.u128()), Some(A)));
@@ -528,7 +537,8 @@ pub fn enabled(w: &World, pre: &PuObs, alpha: Alpha) -> Vec<PuOp> {
             let id = p.pool_info.pool_identifier.clone();
             let st = &p.pool_info.status;
             ops.push(PuOp::Toggle { u: OWNER, pool: id.clone(), w: None, d: None, s: Some(!st.swaps_enabled) });
-            ops.push(PuOp::Toggle { u: OWNER, pool: id.clone(), w: Some(!st.withdrawals_enabled), d: Some(!st.deposits_enabled), s: None });
+            ops.push(PuOp::Toggle { u: OWNER, pool: id.clone(), w: None, d: Some(!st.deposits_enabled), s: None });
+            ops.push(PuOp::Toggle { u: OWNER, pool: id.clone(), w: Some(!st.withdrawals_enabled), d: None, s: None });
             ops.push(PuOp::Toggle { u: A, pool: id.clone(), w: Some(false), d: None, s: None }); // not the owner: refused
         }
         let fee_now = pre.cfg.as_ref().map(|c| c.pool_creation_fee.amount.u128()).unwrap_or(1000);
